@@ -130,3 +130,7 @@ def run(tier: str) -> int:
         "the recursion-limit clause is a runtime fact: observed on the real code by the depth stream",
     ]
     return chk.finish()
+
+
+def replay(doc) -> int:
+    return rc.replay(PROP, doc)
